@@ -20,7 +20,7 @@ import elementpath.aliases as ta
 from elementpath.namespaces import XML_ID, XML_LANG
 from elementpath.datatypes import AnyURI, Float, DayTimeDuration, YearMonthDuration, \
     StringProxy, AnyAtomicType, Duration
-from elementpath.helpers import get_double
+from elementpath.helpers import get_double, round_number
 from elementpath.xpath_nodes import XPathNode, ElementNode, TextNode, CommentNode, \
     ProcessingInstructionNode, DocumentNode, EtreeElementNode
 from elementpath.xpath_context import XPathSchemaContext
@@ -294,15 +294,18 @@ def evaluate__substring(self: XPathFunction, context: ta.ContextType = None) -> 
     item: str = self.get_argument(context, default='', cls=str)
     try:
         start = self.get_argument(context, index=1, required=True)
-        if math.isnan(start) or math.isinf(start):
+        if math.isnan(start) or start == math.inf:
             return ''
+        elif start == -math.inf:
+            # every position is >= round(start), but round(start) + round(length) is -INF or NaN
+            return item if len(self) == 2 else ''
     except TypeError:
         if isinstance(context, XPathSchemaContext):
             start = 0
         else:
             raise self.error('FORG0006', "the second argument must be xs:numeric") from None
     else:
-        start = int(round(start)) - 1
+        start = int(round_number(start)) - 1
 
     if len(self) == 2:
         return item[max(start, 0):]
@@ -320,7 +323,7 @@ def evaluate__substring(self: XPathFunction, context: ta.ContextType = None) -> 
         if math.isinf(length):
             return item[max(start, 0):]
         else:
-            stop = start + int(round(length))
+            stop = start + int(round_number(length))
             return item[slice(max(start, 0), max(stop, 0))]
 
 
